@@ -277,6 +277,7 @@ type Run struct {
 	pureDepth     int
 	curCon        *Contract
 	closable      map[string]bool
+	sendable      map[string]bool
 	ctxInner      map[string]Val
 	mapZero       map[string]string // Mv array name -> zero term of the element type
 	inInit        bool
